@@ -62,6 +62,19 @@ func CanaryScope(nested bool) map[string]cty.Value {
 	}
 }
 
+// PartialScope marks only the primitive variables (with canary contents); collections are
+// unmarked and hold ordinary contents, so a marked key meets an unmarked collection.
+func PartialScope() map[string]cty.Value {
+	sc := e1.Scope()
+	sc["n1"] = m(cty.NumberIntVal(48213))
+	sc["n2"] = m(cty.NumberIntVal(73901))
+	sc["nh"] = m(cty.NumberFloatVal(48213.5))
+	sc["s"] = m(cty.StringVal("K3Q9ZX7A"))
+	sc["sn"] = m(cty.StringVal("77712345"))
+	sc["b"] = m(cty.True)
+	return sc
+}
+
 func leak(text string) string {
 	for _, cn := range Canaries {
 		if strings.Contains(text, cn) {
@@ -114,10 +127,15 @@ func Handle(c *core.Check, st core.State) {
 	files := map[string]*hcl.File{"e.hcl": {Bytes: []byte(src)}}
 	funcs := e1.Functions()
 	sawDiag := false
-	for _, nested := range []bool{false, true} {
+	for variant := 0; variant < 3; variant++ {
+		nested := variant == 1
+		scope := CanaryScope(nested)
+		if variant == 2 {
+			scope = PartialScope()
+		}
 		var ds hcl.Diagnostics
 		c.Count("evaluations", 1)
-		if rec, p := core.Guard(func() { _, ds = expr.Value(&hcl.EvalContext{Variables: CanaryScope(nested), Functions: funcs}) }); p {
+		if rec, p := core.Guard(func() { _, ds = expr.Value(&hcl.EvalContext{Variables: scope, Functions: funcs}) }); p {
 			c.Violation("panic/"+e1.Fam(v.Node), fmt.Sprintf("%q panicked with marked scope (nested=%v): %v", src, nested, rec), vec)
 			return
 		}
